@@ -143,6 +143,7 @@ static inline void ABTD_ythread_context_switch(ABTD_ythread_context *p_old,
 {
     ABTI_UB_ASSERT(ABTDI_fcontext_is_created(&p_new->ctx));
     /* The context is already initialized. */
+    ABTV_CTXSWITCH(p_old, p_new);
     switch_fcontext(&p_new->ctx, &p_old->ctx);
 }
 
@@ -152,6 +153,7 @@ ABTD_ythread_context_start_and_switch(ABTD_ythread_context *p_old,
 {
     ABTI_UB_ASSERT(!ABTDI_fcontext_is_created(&p_new->ctx));
     /* First time. */
+    ABTV_CTXSWITCH(p_old, p_new);
     init_and_switch_fcontext(&p_new->ctx, ABTD_ythread_context_func_wrapper,
                              p_new->p_stacktop, &p_old->ctx);
 }
@@ -161,6 +163,7 @@ ABTD_ythread_context_jump(ABTD_ythread_context *p_new)
 {
     ABTI_UB_ASSERT(ABTDI_fcontext_is_created(&p_new->ctx));
     /* The context is already initialized. */
+    ABTV_CTXSWITCH(NULL, p_new);
     jump_fcontext(&p_new->ctx);
     ABTU_unreachable();
 }
@@ -170,6 +173,7 @@ ABTD_ythread_context_start_and_jump(ABTD_ythread_context *p_new)
 {
     ABTI_UB_ASSERT(!ABTDI_fcontext_is_created(&p_new->ctx));
     /* First time. */
+    ABTV_CTXSWITCH(NULL, p_new);
     init_and_jump_fcontext(&p_new->ctx, ABTD_ythread_context_func_wrapper,
                            p_new->p_stacktop);
     ABTU_unreachable();
@@ -183,6 +187,7 @@ ABTD_ythread_context_switch_with_call(ABTD_ythread_context *p_old,
     ABTI_UB_ASSERT(ABTDI_fcontext_is_created(&p_new->ctx));
     /* The context is already initialized. */
 
+    ABTV_CTXSWITCH(p_old, p_new);
     switch_with_call_fcontext(cb_arg, f_cb, &p_new->ctx, &p_old->ctx);
 }
 
@@ -192,6 +197,7 @@ static inline void ABTD_ythread_context_start_and_switch_with_call(
 {
     ABTI_UB_ASSERT(!ABTDI_fcontext_is_created(&p_new->ctx));
     /* First time. */
+    ABTV_CTXSWITCH(p_old, p_new);
     init_and_switch_with_call_fcontext(cb_arg, f_cb, &p_new->ctx,
                                        ABTD_ythread_context_func_wrapper,
                                        p_new->p_stacktop, &p_old->ctx);
@@ -203,6 +209,7 @@ ABTD_ythread_context_jump_with_call(ABTD_ythread_context *p_new,
 {
     ABTI_UB_ASSERT(ABTDI_fcontext_is_created(&p_new->ctx));
     /* The context is already initialized. */
+    ABTV_CTXSWITCH(NULL, p_new);
     jump_with_call_fcontext(cb_arg, f_cb, &p_new->ctx);
     ABTU_unreachable();
 }
@@ -212,6 +219,7 @@ ABTU_noreturn static inline void ABTD_ythread_context_start_and_jump_with_call(
 {
     ABTI_UB_ASSERT(!ABTDI_fcontext_is_created(&p_new->ctx));
     /* First time. */
+    ABTV_CTXSWITCH(NULL, p_new);
     init_and_jump_with_call_fcontext(cb_arg, f_cb, &p_new->ctx,
                                      ABTD_ythread_context_func_wrapper,
                                      p_new->p_stacktop);
